@@ -10,6 +10,11 @@
      expiry = the earlier of the two; only the client part for static-TTL commands, keys without expiry, or when the
      populating reply was nil (the key had already expired at the server: PTTL -2).
 
+   Records of `storedrv -mode fill` (mode = "scripted") come from CacheFill.tla cases: the server answered PTTL <key the
+   command reads> with exactly srvP (scripted), so the server part is  tcall + srvP <= . <= tret + srvP  (the answer is
+   added at arrival, which lies between call and return) and the whole rule is  tcall + Eff <= expiry <= tret + Eff  with
+   Eff(ttl, srvP) of CacheFill.tla; static = "the batch went down the static-TTL path" as CacheFill predicts.
+
    A record is one result of one call; read records repeat the timings of the call that populated the entry (fields p...).
    Violations: the reported CachePXAT of the populating call outside [Lower, Upper]; a hit of that same entry (same
    CachePXAT) returned by a call that started at or after Upper; CachePTTL / CacheTTL not matching CachePXAT and the
@@ -27,8 +32,13 @@ Max0(a) == IF a < 0 THEN 0 ELSE a
 CeilS(ms) == (ms + 999) \div 1000
 
 ClientOnly(r) == r.static \/ r.srvP < 0 \/ r.popNil
-Lower(r) == IF ClientOnly(r) THEN r.ptcall + r.ttl ELSE Min2(r.ptcall + r.ttl, r.tsetA + r.srvP - Slack)
-Upper(r) == IF ClientOnly(r) THEN r.ptret + r.ttl ELSE Min2(r.ptret + r.ttl, r.tsetB + r.srvP + (r.ptret - r.ptcall) + Slack)
+Fill == INSTANCE CacheFill WITH Stores <- {}, Shapes1 <- {}, Srv1 <- {}, Shapes2 <- {}, Srv2 <- {}, BugZeroIsNone <- FALSE,
+                              BugProbeFirstArg <- FALSE, BugMgetProbeAll <- FALSE, pc <- x, inp <- x, wire <- x, rep <- x, fill <- x
+Scripted(r) == r.mode = "scripted"
+Lower(r) == IF Scripted(r) THEN r.ptcall + Fill!Eff(r.ttl, IF ClientOnly(r) THEN -1 ELSE r.srvP)
+            ELSE IF ClientOnly(r) THEN r.ptcall + r.ttl ELSE Min2(r.ptcall + r.ttl, r.tsetA + r.srvP - Slack)
+Upper(r) == IF Scripted(r) THEN r.ptret + Fill!Eff(r.ttl, IF ClientOnly(r) THEN -1 ELSE r.srvP)
+            ELSE IF ClientOnly(r) THEN r.ptret + r.ttl ELSE Min2(r.ptret + r.ttl, r.tsetB + r.srvP + (r.ptret - r.ptcall) + Slack)
 
 \* the populating call: not a hit, and it reports an expiry within the bounds
 PopOK(r) == r.kind = "pop" => /\ ~r.hit
